@@ -415,7 +415,7 @@ func (s *E2EScenario) Check(k *sim.Kernel) []sim.Violation {
 		for _, c := range cl.Calls {
 			frames = append(frames, c.frame())
 		}
-		out = append(out, checkClientConn(key, s.Service, s.Scripts, ClientSpec{Frames: frames, End: "close"}, conn, perClient[ci], !done[ci] || !quiet, false, false)...)
+		out = append(out, checkClientConn(key, s.Service, s.Scripts, ClientSpec{Frames: frames, End: "close"}, conn, perClient[ci], !quiet, false, false)...)
 		// ---- client side: what receive / Call returned
 		obs := replies[ci]
 		oi := 0
@@ -431,7 +431,7 @@ func (s *E2EScenario) Check(k *sim.Kernel) []sim.Violation {
 			}
 			for j, r := range exp {
 				if oi >= len(obs) {
-					if quiet && done[ci] {
+					if quiet {
 						out = append(out, vio("client", "reply-not-received", "%s call %d (cid %d): reply %d %v was never returned by the client API", key, i, c.Cid, j, r))
 					}
 					break
